@@ -86,6 +86,33 @@ def run(ctx):
                           replay={"cc": c["cc"], "prec": p})
         if not r_["ok"] or abs(abs(r_["back"]) - abs(c["cc"]) / 1e4) > 0.5 * 10 ** (-p) / 3240 * 1.0001 + 1e-12:
             ctx.violation("angle|roundtrip", "deg2gon(gon2deg(%s gon, prec %d) = %r) = %r" % (c["cc"] / 1e4, p, r_["dms"], r_["back"]))
+    # ---- latitude() / longitude() print the same angle in degrees-minutes-seconds (used for the geodetic coordinates of gama-g3)
+    lp = os.path.join(ctx.outdir, "latlong.txt")
+    llist = []
+    with open(lp, "w") as f:
+        for c in sorted(ra.cases, key=lambda c: c["cc"]):
+            if abs(c["cc"]) > 2000000:
+                continue
+            for p in range(4):
+                f.write("T %.4f %d\n" % (c["cc"] / 1e4, p))
+                llist.append((c, p))
+    rc, out = vlib.sh([os.path.join(bdir, "drv_lit"), lp], timeout=600)
+    recs = [json.loads(l) for l in out.splitlines() if l.startswith("{")]
+    for (c, p), r_ in zip(llist, recs):
+        fl = c["fields"][str(p)] if isinstance(c["fields"], dict) else c["fields"][p]
+        if fl["tie"]:
+            continue
+        for which in ("lat", "lon"):
+            m = re.match(r"^\s*(-?)(\d+)-(\d+)-(\d+)(?:\.(\d+))?$", r_[which])
+            if not m:
+                ctx.violation("latlong|format", "%s(%s gon, prec %d) = %r is not d-m-s" % (which, c["cc"] / 1e4, p, r_[which]))
+                continue
+            deg, mi = int(m.group(2)), int(m.group(3))
+            sec = int(m.group(4)) * 10 ** p + (int(m.group(5)) if m.group(5) else 0)
+            neg = m.group(1) == "-"
+            if (deg, mi, sec) != (fl["deg"], fl["min"], fl["sec"]) or (neg != (c["cc"] < 0) and (deg, mi, sec) != (0, 0, 0)):
+                ctx.violation("latlong|fields", "%s(%s gon, prec %d) = %r, exact fields are %s%d-%02d-%s (in 1e-%d seconds)" % (
+                    which, c["cc"] / 1e4, p, r_[which], "-" if c["cc"] < 0 else "", fl["deg"], fl["min"], fl["sec"], p), replay={"cc": c["cc"], "prec": p})
     # ---------------------------------------------------------------- (c) geodesy
     rg = gen(ctx, "Geodesy", {"NEllipsoids": 48, "Keep": 7 if q else 1, "Seed": ctx.seed})
     gp = os.path.join(ctx.outdir, "geo.txt")
